@@ -2153,6 +2153,9 @@ func (d *Document) parseBodySubElement(decoder *xml.Decoder, startElement xml.St
 		// 解析书签结束
 		bookmark := &BookmarkEnd{ID: getAttributeValue(startElement.Attr, "id")}
 		return bookmark, d.skipElement(decoder, startElement.Name.Local)
+	case "sdt":
+		// 解析块级结构化文档标签（目录、内容控件）
+		return d.parseSDT(decoder, startElement)
 	default:
 		// 跳过未知元素
 		Debugf("跳过未知元素: %s", startElement.Name.Local)
